@@ -34,25 +34,25 @@ type Violation struct {
 
 // Result is what one worker process reports to the orchestrator.
 type Result struct {
-	Property     string         `json:"property"`
-	Shard        int            `json:"shard"`
-	NShards      int            `json:"nshards"`
-	Tier         string         `json:"tier"`
-	Scenarios    int            `json:"scenarios"`
-	States       int64          `json:"states"`
-	Transitions  int64          `json:"transitions"`
-	Evaluations  int64          `json:"evaluations"`
-	Nontrivial   int64          `json:"distinct_nontrivial"`
-	Outcomes     int64          `json:"distinct_outcomes"`
-	Exhaustive   bool           `json:"exhaustive"`
-	Caps         []string       `json:"caps,omitempty"`
-	Violations   []Violation    `json:"violations,omitempty"`
-	Nondet       []string       `json:"nondeterminism,omitempty"`
-	Samples      []any          `json:"samples,omitempty"`
-	Notes        []string       `json:"notes,omitempty"`
-	Counters     map[string]int64 `json:"counters,omitempty"`
-	WallS        float64        `json:"wall_s"`
-	Done         bool           `json:"done"`
+	Property    string           `json:"property"`
+	Shard       int              `json:"shard"`
+	NShards     int              `json:"nshards"`
+	Tier        string           `json:"tier"`
+	Scenarios   int              `json:"scenarios"`
+	States      int64            `json:"states"`
+	Transitions int64            `json:"transitions"`
+	Evaluations int64            `json:"evaluations"`
+	Nontrivial  int64            `json:"distinct_nontrivial"`
+	Outcomes    int64            `json:"distinct_outcomes"`
+	Exhaustive  bool             `json:"exhaustive"`
+	Caps        []string         `json:"caps,omitempty"`
+	Violations  []Violation      `json:"violations,omitempty"`
+	Nondet      []string         `json:"nondeterminism,omitempty"`
+	Samples     []any            `json:"samples,omitempty"`
+	Notes       []string         `json:"notes,omitempty"`
+	Counters    map[string]int64 `json:"counters,omitempty"`
+	WallS       float64          `json:"wall_s"`
+	Done        bool             `json:"done"`
 }
 
 // TB is the subset of testing.TB the worker needs.
